@@ -26,6 +26,10 @@ SKIP = {"op", "tid", "cfg", "w", "panic", "worlds", "mode", "threads_n", "shape"
 # accepted on purpose (with the reason)
 ALLOW = {
     ("world", "SOp", "b"): "contains() is reported as `b` only when the path is contains; other paths report `res`",
+    ("cs", "CS", "ledger.destroyed"): "the corrupted entry belongs to the storage joined with, not to the change set (its own amount objects are compared exactly)",
+    ("cs", "CS", "ledger.zc"): "no zero-sized values in the change-set experiments",
+    ("cs", "CS", "ledger.zharn"): "no zero-sized values in the change-set experiments",
+    ("cs", "CS", "ledger.zlib"): "no zero-sized values in the change-set experiments",
     ("world", "Created", "with"): "the components a builder attaches are an input of the event, the sweep checks the outcome",
     ("world", "Created", "obs.walive"): "World::is_alive is a merged view: compared for merged handles only (DESIGN, C02)",
 }
